@@ -143,7 +143,9 @@ class Modulator:
         M = symbols.size
         self._M = M
         self._K = np.log2(M)
-        self.symbols = symbols
+        # Store our own copy: the table of this object must not follow later
+        # changes that the caller makes to the array it passed
+        self.symbols = np.array(symbols)
 
     def plotConstellation(self) -> None:  # pragma: no cover
         """Plot the constellation (in a scatter plot).
